@@ -758,6 +758,33 @@ def run_vm_iteration(impl, case):
     expired_midway = bool(gone_after) and gone_after <= len(visited)
     remaining = remaining_now() if expired_midway else at_start
     bad = []
+    # a second iteration of the same kind by the same machine after the directory has changed
+    # (the refresh thread runs between two loops of a long-lived script): it must walk the
+    # directory as it is NOW
+    if case.get('then') is not None:
+        then = [tuple(e) for e in case['then']]
+        try:
+            impl.apply(('A', 5))
+            impl.apply(('R', then, 2))
+            now = remaining_now()
+            second = []
+            if what.endswith('members'):
+                vm.discm(container)
+            else:
+                vm.disc()
+            while reg.result is not Operand.NULL and len(second) <= len(now) + 2:
+                second.append(reg.result)
+                if what.endswith('members'):
+                    vm.dnextm(container, second[-1])
+                else:
+                    vm.dnext(second[-1])
+            if sorted(second) != now:
+                bad.append(('vm-second-iteration-stale',
+                            'after the directory changed, a second iteration over {} visits {!r}; the '
+                            'directory now holds {!r}'.format(what, second, now)))
+        except Exception as ex:  # noqa
+            bad.append(('vm-iteration-raises:' + type(ex).__name__,
+                        'second iteration over {} ({!r}): {!r}'.format(what, container, ex)))
     if len(visited) > len(at_start) + 2:
         bad.append(('vm-iteration-does-not-terminate', 'visited {!r}'.format(visited)))
     if len(set(visited)) != len(visited):
@@ -785,6 +812,10 @@ def vm_iteration_streams(chk, impl, stats):
         case = {'kind': 'vm_iteration', 'population': snap, 'stays': stay, 'iterate': what,
                 'container': snap[0][1 if what.startswith('group') else 2],
                 'forward': rng.random() < 0.5, 'expire_after_visits': rng.randint(0, len(names))}
+        if rng.random() < 0.5:
+            names2 = rng.sample(NAME_POOL, rng.randint(0, 4))
+            case['then'] = [(nm, rng.choice(groups + rng.sample(NAME_POOL, 1)),
+                             rng.choice(locs + rng.sample(NAME_POOL, 1))) for nm in names2]
         n += 1
         chk.count()
         bad, _, nontrivial = run_vm_iteration(impl, case)
